@@ -84,9 +84,12 @@ def run(ctx, rep):
             ("module root, 3 objects (two nesting levels), 1 mutation",
              cfg_text(3, 2, 1, ["PVLModule"], some, True, ops=("setitem", "pop"))),
             ("leaves a loader produces (missing-value placeholder, Quantity, datetime, Decimal, int, frozenset) x all mechanisms",
-             cfg_text(1, 2, 1, ["PVLModule"], ALL_MECHS, True, ("x", "@empty", "@qty", "@dt", "@dec", "@int", "@set"), ops=("append", "pop"))),
+             cfg_text(1, 2, 1, ["PVLModule"], ALL_MECHS, True, ("x", "@empty", "@qty", "@qtydec", "@dt", "@dec", "@int", "@set"), ops=("append", "pop"))),
             ("the same leaves inside a nested block",
-             cfg_text(2, 1, 1, ["PVLModule"], ALL_MECHS, True, ("x", "@empty", "@qty", "@dt", "@dec", "@int", "@set"), ops=("append", "pop"))),
+             cfg_text(2, 1, 1, ["PVLModule"], ALL_MECHS, True, ("x", "@empty", "@qty", "@qtydec", "@dt", "@dec", "@int", "@set"), ops=("append", "pop"))),
+            ("containers of the root classes nested as values (a module inside a module, a bare OrderedMultiDict inside a group)",
+             cfg_text(3, 1, 1, ["PVLModule", "OrderedMultiDict"], ALL_MECHS, True, ("x",), ops=("append", "pop"),
+                      children=("PVLModule", "OrderedMultiDict", "PVLGroup"))),
             ("mutable values below the top level: lists (loaded sequences) and Quantities holding a list, in modules and groups",
              cfg_text(2, 2, 1, ["PVLModule"], ALL_MECHS, True, ("x", "@empty"), ops=("append", "pop", "clear"), children=("list", "qtylist"))),
             ("lists and list-valued Quantities inside a group",
